@@ -14,7 +14,7 @@ import stat as _stat
 from . import envshim, vsched, wd
 from . import explore as ex
 
-DIRS = ["d", "e", "d/d", "e/d"]
+DIRS = ["d", "e", "d/d", "e/d", "d/e"]   # d has two possible sub-directories (siblings matter for walks)
 FILES = ["f", "g", "d/f", "e/f"]
 ALL = DIRS + FILES
 KIND = {**{p: "d" for p in DIRS}, **{p: "f" for p in FILES}}
@@ -65,40 +65,41 @@ class Model:
     def ops(self, outside_ops=True, root_delete=False):
         out = []
         t = self.tree
-        for p in FILES:
+        files_now = [p for p in ALL if t.get(p) == "f"]
+        dirs_now = [p for p in ALL if t.get(p) == "d"]
+        for p in FILES + ["d"]:      # a regular file may re-use the directory name 'd' (kind changes of a name)
             if p not in t and self.isdir(parent(p)):
                 out.append(("mknod", p))
         for p in DIRS:
             if p not in t and self.isdir(parent(p)):
                 out.append(("mkdir", p))
-        for p in ("d/d", "e/d"):
+        for p in ("d/d", "e/d", "d/e"):
             if parent(p) not in t and p not in t:
                 out.append(("makedirs", p))
-        for p in FILES:
-            if p in t:
-                out.append(("append", p))
-                out.append(("truncate", p))
+        for p in files_now:
+            out.append(("append", p))
+            out.append(("truncate", p))
         for p in ALL:
             if p in t:
                 out.append(("chmod", p))
-        for p in FILES:
-            if p in t:
-                out.append(("unlink", p))
-        for p in DIRS:
-            if p in t:
-                if self.children(p):
-                    out.append(("rmtree", p))
-                else:
-                    out.append(("rmdir", p))
+        for p in files_now:
+            out.append(("unlink", p))
+        for p in dirs_now:
+            if self.children(p):
+                out.append(("rmtree", p))
+            else:
+                out.append(("rmdir", p))
         for a in ALL:
             if a not in t:
                 continue
-            for b in (FILES if KIND[a] == "f" else DIRS):
+            for b in (FILES if t[a] == "f" else DIRS):
                 if b == a or inside(b, a) or not self.isdir(parent(b)):
                     continue
-                if b in t and KIND[b] == "d" and self.children(b):
+                if b in t and t[b] != t[a]:
+                    continue  # a file cannot replace a directory and vice versa
+                if b in t and t[b] == "d" and self.children(b):
                     continue  # cannot replace a non-empty directory
-                if KIND[a] == "d":
+                if t[a] == "d":
                     sub = self.subtree(a)
                     if sub and "/" in b:
                         continue  # would leave the universe (depth)
@@ -272,7 +273,7 @@ class Config:
     def tag(self):
         return (f"{'rec' if self.recursive else 'flat'}-{self.root_type}{'-full' if self.full else ''}"
                 f"{'-' + self.root_form if self.root_form != 'abs' else ''}"
-                f"{'-' + self.names if self.names != 'ascii' else ''}"
+                f"{'-names:' + self.names if self.names != 'ascii' else ''}"
                 f"{'-early' if self.early else ''}{'-split' if self.split_reads else ''}"
                 f"{'-filter=' + '+'.join(self.second_filter) if self.second_filter else ''}"
                 f"{'-faults=' + repr(sorted(self.faults.items())) if self.faults else ''}")
@@ -311,6 +312,11 @@ def walk_tree(root):
     return out
 
 
+# real names for cfg.names == "prefix": a sibling's name starts with another entry's name
+PREFIX_NAMES = {"d": "a", "e": "ab", "f": "a.f", "g": "ab.f"}
+PREFIX_UNMAP = {v: k for k, v in PREFIX_NAMES.items()}
+
+
 class HistoryHarness(ex.Harness):
     """One history = (initial tree, [(op, pace), ...]) under one configuration."""
 
@@ -328,8 +334,17 @@ class HistoryHarness(ex.Harness):
     # ------------------------------------------------------------------------------------------
     def mapname(self, p):
         """Universe path -> real relative name (C19 uses non-ASCII / undecodable names)."""
+        if self.cfg.names == "prefix":
+            return "/".join(PREFIX_NAMES.get(c, c) for c in p.split("/"))
         suffix = {"ascii": "", "utf8": "\u00e9", "undecodable": "\udcff"}[self.cfg.names]
         return "/".join(c + suffix for c in p.split("/")) if suffix else p
+
+    def unmapname(self, p):
+        if self.cfg.names != "prefix" or p is None:
+            return p
+        bang = p.startswith("!")
+        q = "/".join(PREFIX_UNMAP.get(c, c) for c in p.lstrip("!").split("/"))
+        return ("!" + q) if bang else q
 
     def perform(self, R, O, op, state):
         k = op[0]
@@ -418,7 +433,7 @@ class HistoryHarness(ex.Harness):
                 if b == Rb:
                     return ""
                 if b.startswith(Rb + b"/"):
-                    return os.fsdecode(b[len(Rb) + 1:])
+                    return self.unmapname(os.fsdecode(b[len(Rb) + 1:]))
                 return "!" + os.fsdecode(b)
 
             def rec_into(lst):
@@ -463,7 +478,7 @@ class HistoryHarness(ex.Harness):
                 elif pace == "drain-soft":
                     s.idle("drain", allow_early=cfg.early)
             cur["op"] = len(self.history)
-            final = None if model.root_gone else walk_tree(R)
+            final = None if model.root_gone else {self.unmapname(p): k for p, k in walk_tree(R).items()}
             book = self.bookkeeping(obs, R, O, state)
             emitter_alive = [e.is_alive() for e in obs.emitters]
             n_events = len(events)
@@ -474,7 +489,7 @@ class HistoryHarness(ex.Harness):
                 dirs = [""] + sorted(p for p, k in final.items() if k == "d")
                 for j, d in enumerate(dirs):
                     name = f"probe{j}"
-                    os.mknod(os.path.join(R, d, name))
+                    os.mknod(os.path.join(R, self.mapname(d) if self.cfg.names == "prefix" else d, name))
                     probes[d] = (d + "/" + name) if d else name
                 s.idle("drain")
             probe_events = events[n_events:]
@@ -591,8 +606,12 @@ def check_replay(h, res):
     v = res.value
     if v is None or v["root_gone"]:
         return out
-    got = replay_events(h.tree0, v["events"], h.cfg.recursive)
-    final = v["final"]
+    # the probe files created after the final drain are ordinary file operations of the history:
+    # replaying their events as well checks that every directory still reports under its real name
+    got = replay_events(h.tree0, v["events"] + v["probe_events"], h.cfg.recursive)
+    final = dict(v["final"])
+    for pp in v["probes"].values():
+        final[pp] = "f"
     if not h.cfg.recursive:
         final = {p: k for p, k in final.items() if "/" not in p}
     if got != final:
@@ -909,7 +928,7 @@ def replay_record(rec, checks):
     cfg = Config(recursive=not tag.startswith("flat"),
                  root_type="bytes" if "-bytes" in tag else ("path" if "-path" in tag else "str"),
                  full="-full" in tag, root_form="rel" if "-rel" in tag else ("slash" if "-slash" in tag else "abs"),
-                 names="utf8" if "-utf8" in tag else ("undecodable" if "-undecodable" in tag else "ascii"),
+                 names=(tag.split("-names:")[1].split("-")[0] if "-names:" in tag else "ascii"),
                  second_filter=(tag.split("-filter=")[1].split("-faults")[0].split("+") if "-filter=" in tag else None))
     hist = [(tuple(op), pace) for op, pace in rec["history"]]
     h = HistoryHarness(rec["tree0"], hist, cfg)
@@ -1069,7 +1088,7 @@ def contract(m, op, cfg):
         req, alw = arrive(op[1], "d", {}, moved_in=False)
     elif k == "makedirs":
         top = parent(op[1])
-        req, alw = arrive(top, "d", {"d": "d"}, moved_in=False)
+        req, alw = arrive(top, "d", {op[1].rsplit("/", 1)[1]: "d"}, moved_in=False)
     elif k == "append":
         p = op[1]
         if visible(p):
@@ -1188,10 +1207,25 @@ def check_contract(h, res):
                             detail=dict(event=list(s_))))
             break
     # completeness for operations issued one at a time
+    deviated = getattr(res, "points", None) is not None and res.cost > 0
     for i, (op, req, alw, single) in enumerate(per_op):
         if not single or alw is None:
             continue
         got = {sig(e) for e in evs if e[0] == i}
+        if deviated:
+            # under a deviating schedule (slow reader, split kernel buffer, early delay expiry) a rename may
+            # legitimately come out as its two unpaired halves: demand one of the two complete descriptions
+            req = set(req)
+            for e in list(req):
+                if e[0].endswith("MovedEvent") and e[1] is not None and e[2] is not None:
+                    fl = e[0][: -len("MovedEvent")]
+                    halves = [{(fl + "DeletedEvent", e[1], None, False), (fl + "MovedEvent", e[1], None, False)},
+                              {(fl + "CreatedEvent", e[2], None, e[3]), (fl + "CreatedEvent", e[2], None, False),
+                               (fl + "MovedEvent", None, e[2], False)}]
+                    if e not in got and all(h & got for h in halves):
+                        req.discard(e)
+                        if not e[3]:
+                            req = {x for x in req if not (x[0].endswith("MovedEvent") and x[3])}
         missing = req - got
         extra = got - alw
         if missing:
@@ -1277,3 +1311,74 @@ def check_paths(h, res):
                                                       f"history={h.name}",
                                 fp=f"path-name {which} ({e[1]}{' synthetic' if e[5] else ''}) names={h.cfg.names} form={h.cfg.root_form}"))
     return out
+
+
+def single_op_deviation_search(ctx, checks, *, tier, bound=None):
+    """C03: every single operation from small trees under all schedules with <= bound deviations (operator is not
+    involved: reader/emitter/dispatcher interleavings at seam calls, split kernel buffer, early pairing-delay expiry)."""
+    wd.load()
+    envshim.install()
+    q = tier == "quick"
+    cfg = Config(early=False, split_reads=True, probes=False, outside_ops=False)
+    H = type("DevHarness", (_DevHarness,), dict(checks=tuple(checks)))
+    jobs = []
+    for t in small_trees(1 if q else 3):
+        for b in bursts(Model(t), 1, True, outside_ops=False):
+            op = b[0][0]
+            if q and op[0] not in ("rename", "move_out", "move_in_dir", "move_in_file", "makedirs", "rmtree"):
+                continue
+            deep = op[0] == "rename"
+            jobs.append((H(t, b, cfg), bound or ((2 if deep else 1) if q else (3 if deep else 2))))
+    ctx.explore_many(jobs, cap=400_000 if q else 8_000_000, selftest=False, workers=fs_workers(ctx))
+
+
+STRUCTURAL = ("mkdir", "makedirs", "rmdir", "rmtree", "rename", "move_out", "move_in_dir")
+
+
+def vanish_search(ctx, checks, *, tier):
+    """C07: entries vanish (or change kind) between a notification and the library's follow-up add_watch / walk.
+    History = one directory-creating operation, then - resumed at ANY library seam call - a burst of up to 3
+    operations that remove, rename or re-use names; all placements of the resumption (deviation bound 1)."""
+    wd.load()
+    envshim.install()
+    q = tier == "quick"
+    cfg = Config(early=True, split_reads=False, probes=True, outside_ops=False)
+    H = type("DevHarness", (_DevHarness,), dict(checks=tuple(checks)))
+    jobs = []
+    seen = set()
+    for t in ({}, {"d": "d"}, {"d": "d", "e": "d"}) if q else small_trees(2):
+        m0 = Model(t)
+        for first in m0.ops(outside_ops=False):
+            if first[0] not in ("mkdir", "makedirs", "move_in_dir"):
+                continue
+            m1 = m0.copy()
+            m1.apply(first)
+            # a second creation inside the new directory may belong to the first burst (siblings for the walk)
+            firsts = [[(first, "settle")]]
+            for second in m1.ops(outside_ops=False):
+                if second[0] in ("mkdir",) and inside(second[1], first[1] if first[0] != "makedirs" else parent(first[1])):
+                    firsts.append([(first, "burst"), (second, "settle")])
+            for pre in firsts:
+                m2 = m0.copy()
+                for op, _ in pre:
+                    m2.apply(op)
+
+                def rec(m, suffix, depth):
+                    if suffix:
+                        hist = pre + [(o, "burst") for o in suffix[:-1]] + [(suffix[-1], "drain")]
+                        key = (tuple(sorted(t.items())), repr(hist))
+                        if key not in seen:
+                            seen.add(key)
+                            jobs.append((H(t, hist, cfg), 1))
+                    if depth == 0:
+                        return
+                    for op in m.ops(outside_ops=False):
+                        if op[0] not in ("rmdir", "rmtree", "rename", "move_out", "mknod") or \
+                                (op[0] == "mknod" and op[1] != "d") or (op[0] == "rename" and m.tree.get(op[1]) != "d"):
+                            continue
+                        mm = m.copy()
+                        mm.apply(op)
+                        rec(mm, suffix + [op], depth - 1)
+
+                rec(m2, [], 2 if q else 3)
+    ctx.explore_many(jobs, cap=300_000 if q else 6_000_000, selftest=False, workers=fs_workers(ctx))
